@@ -31,7 +31,11 @@ def readRat (s : String) : LoadM Rat := do
   | .negZero => pure 0
   | _ => throw .unsupported
 
-def isTrueWord (s : String) : Bool := s.toLower == "true"
+/-- An `xs:boolean` attribute: `true` / `1` (any letter case for the word, surrounding whitespace ignored) mean true
+    (after the `fix:` commit recorded in DESIGN.md §14; before it only the word `true` did). -/
+def isTrueWord (s : String) : Bool :=
+  let t := stripWs s.toList
+  (String.ofList t).toLower == "true" || t == ['1']
 
 /-- `'x' in attrib and attrib['x'].lower() == 'true'`, with a default when absent. -/
 def boolAttr (x : XmlNode) (k : String) (dflt : Bool) : Bool :=
